@@ -148,8 +148,20 @@ def run(ctx):
                 src = ast.unparse(marg)
                 d = ctx.flow.defs(m).of(src) if isinstance(marg, ast.Name) else []
                 shown = ast.unparse(d[-1][1]) if d else src
+                # keyed by what the construction is (one machine id / a list of eligible machines), not by how
+                # the value is spelt: the recorded finding D9 must stay recognisable when the helper that draws
+                # the machines is renamed, inlined or re-expressed
+                try:
+                    ty = ctx.types.type_of(m.module, marg) or ""
+                except Exception:
+                    ty = ""
+                several = "list" in ty or "Sequence" in ty or "tuple" in ty
+                tag = (
+                    "machines = <eligible machines of a multi-machine operation>" if several or not ty
+                    else "machines = <machine of a single-machine operation>"
+                )
                 chk.violation(
-                    "R19.a", m, d[-1][2] if d else n,
+                    "R19.a", m, tag if m.name == "create_random_operation" else (d[-1][2] if d else n),
                     f"the eligible machines of this operation come from `{shown}`, which does not depend on the "
                     f"machine pool of the instance being generated ({sorted(pool_params)}): they are drawn from a "
                     "fixed prefix of machine ids, not from all M machines",
@@ -161,6 +173,17 @@ def run(ctx):
         if isinstance(n, ast.Call) and isinstance(n.func, ast.Attribute) and n.func.attr == "create_random_operation":
             a = n.args[0] if n.args else next((k.value for k in n.keywords), None)
             if a is None or not ctx.flow.depends_on(generate, a, lambda x: isinstance(x, ast.Name) and x.id == "num_machines"):
+                n_built = sum(
+                    1 for x in own_nodes(generate.node)
+                    if isinstance(x, ast.Call) and (dotted(x.func) or "").split(".")[-1] == "JobShopInstance"
+                )
+                if a is None and n_built > 1:
+                    # several generation strategies chosen by a flag kept beside the configuration: the pool-less
+                    # call may be reached only where the pool is irrelevant (multi-machine operations) - not decided
+                    raise AnalysisError(
+                        f"{generate.loc(n)}: generate has several strategies and calls create_random_operation() without a pool on one of them; "
+                        "whether that strategy is taken only where the pool does not matter is not decided"
+                    )
                 chk.violation("R19.a", generate, n, "generate does not pass a pool derived from num_machines to create_random_operation", loc=generate.loc(n))
             else:
                 chk.ok("R19.a", generate.qualname, generate.loc(n), "pool = f(num_machines)")
@@ -185,6 +208,11 @@ def run(ctx):
     for c in cone:
         for m0 in list(c.methods.values()):
             units.append(ctx.norm.flat(m0, depth=4) if m0.name != "__init__" else m0)
+            if m0.name == "__init__":
+                try:
+                    units.append(ctx.norm.flat(m0, depth=3))  # the RNG may be made by a helper (`self.rng = make_rng(seed)`)
+                except AnalysisError:
+                    pass
     gen_modules = {c.module.name for c in cone}
     for mi_ in repo.modules.values():
         if mi_.name in gen_modules:
@@ -205,6 +233,8 @@ def run(ctx):
                     if m.name == "__init__" and n.args and isinstance(n.args[0], ast.Name) and n.args[0].id == "seed":
                         owner_ok = True
                         chk.ok("R19.c", m.qualname, m.loc(n), "self RNG = random.Random(seed)")
+                    elif m.name == "__init__" and not n.args and not n.keywords and _under_seed_is_none(m, n):
+                        pass  # `if seed is None: Random()` - what Random(None) does anyway; the seeded branch is judged on its own
                     elif m.name == "__init__":
                         chk.violation("R19.c", m, n, f"the generator's RNG is created as `{ast.unparse(n)}`, not from the `seed` argument", loc=m.loc(n))
                     continue
@@ -281,7 +311,9 @@ def run(ctx):
                     t = ctx.norm.xtext(gflat, k.value)
                     return f"{nn.name}(" in t or f"self.{ROLE['counter']}" in t
             return False
-        if len(named) == 1 and _named_by_counter(named[0]):
+        # one construction per returning strategy, each directly returned and named by the counter
+        each_returned = all(isinstance(gflat.module.parents.get(c_), ast.Return) for c_ in named)
+        if named and all(_named_by_counter(c_) for c_ in named) and (len(named) == 1 or each_returned):
             chk.ok("R19.d", generate.qualname, gflat.loc(named[0]), f"every instance named through {nn.name}()")
         else:
             chk.violation("R19.d", generate, named[0] if named else None, f"generate does not name the instance with {nn.name}()")
@@ -291,6 +323,15 @@ def run(ctx):
 
     # ---------------------------------------------------------------- R19.f/g
     ctx.attempt(_pool_and_shape, ctx, gen_cls, generate, cro)
+
+
+def _under_seed_is_none(m, node) -> bool:
+    child, cur = node, m.module.parents.get(node)
+    while cur is not None and cur is not m.node:
+        if isinstance(cur, ast.If) and any(child is x for b in cur.body for x in ast.walk(b)) and ast.unparse(cur.test).replace(" ", "") == "seedisNone":
+            return True
+        child, cur = cur, m.module.parents.get(cur)
+    return False
 
 
 ROLE = {"limit": "_iteration_limit", "iter": "_current_iteration", "counter": "_counter", "namer": None, "step": 1}
@@ -855,7 +896,17 @@ def _pool_and_shape(ctx, gen_cls, generate_raw, cro):
                 if isinstance(c.func, ast.Attribute) and c.func.attr == "randint":
                     hit = True
                     a = ast.unparse(c)
-                    if f"*self.{rng}" in a or (f"self.{rng}[0]" in a and f"self.{rng}[1]" in a):
+                    # randint(lo, hi) with `lo, hi = self.<range>` (the bounds unpacked by a drawing helper)
+                    unpacked = False
+                    if len(c.args) == 2 and all(isinstance(x, ast.Name) for x in c.args):
+                        for u in own_nodes(m.node):
+                            if (
+                                isinstance(u, ast.Assign) and len(u.targets) == 1 and isinstance(u.targets[0], ast.Tuple)
+                                and [ast.unparse(e_) for e_ in u.targets[0].elts] == [c.args[0].id, c.args[1].id]
+                                and ctx.norm.xtext(m, u.value) == f"self.{rng}"
+                            ):
+                                unpacked = True
+                    if unpacked or f"*self.{rng}" in a or (f"self.{rng}[0]" in a and f"self.{rng}[1]" in a):
                         chk.ok("R19.g", m.qualname, m.loc(n), f"{var} ~ randint(*self.{rng})")
                     else:
                         chk.violation("R19.g", m, n, f"`{var}` is drawn as `{a}`, not from self.{rng}", loc=m.loc(n))
